@@ -30,7 +30,9 @@ RULE = ("valid streams of 0-4 chunks (an empty chunk included) x one fault: inva
         "or a destination inside a file that already holds collections; plus whole-table (DataFrame / dict) inputs with one invalid record of each "
         "kind; every combination of boundscheck/triucheck/dupcheck (+ensure_sorted) x every kind of invalid record (a fault counts only when its "
         "check is on); duplicates identical in every column and duplicates differing in the value; an empty chunk followed by a non-empty "
-        "one; destination URIs with and without the leading slash; distinct by case hash")
+        "one; destination URIs with and without the leading slash; every invalid family x id representation {int8..int64, uint8..uint64, "
+        "integral float64, Python-object ints} x container {DataFrame, dict of arrays, dict of lists} x API {create_cooler ordered / unordered / whole "
+        "table, create} x count dtype, verdict decided by the value of the record as written; distinct by case hash")
 TRUSTED = ["h5py/HDF5 group and attribute semantics are observed (SHA of attrs+datasets per tracked group), modelled only as path -> {format, content id}"]
 ASSUMPTIONS = ["faults are Python exceptions at chunk boundaries (validator, iterator, range check), as the property states"]
 RESIDUE = ["a process killed inside an HDF5 write (torn file) is outside the model",
@@ -210,13 +212,55 @@ def apply_fault(stream, fault):
     return items[:k] + [None]
 
 
-def make_iter(items, chunkform):
+def make_iter(items, chunkform, id_dtype="int64", count_dtype="int64"):
     def gen():
         for i, it in enumerate(items):
             if it is None:
                 raise InjectedError(f"iterator failed before chunk {i}")
-            yield G.make_chunk(it, [["count", "int", "int32", "int64"]], chunkform)
+            yield G.make_chunk(it, [["count", "int", "int32", count_dtype]], chunkform, id_dtype)
     return gen()
+
+
+NAN_SIGNATURE = "nan-bin-id-passes-boundscheck"
+
+
+def special_chunk(rows, name, form):
+    """invalid inputs that have no integer value: built from a valid chunk"""
+    import pandas as pd
+    d = G.make_chunk(rows, [["count", "int", "int32", "int64"]], "dict", "float64" if name in ("nan_id", "inf_id") else "int64")
+    if name == "nan_id":
+        d["bin1_id"][-1] = np.nan
+    elif name == "inf_id":
+        d["bin2_id"][-1] = np.inf
+    elif name == "missing_bin2":
+        del d["bin2_id"]
+    elif name == "missing_count":
+        del d["count"]
+    return pd.DataFrame(d) if form == "df" else d
+
+
+def make_special_iter(items, name, form):
+    def gen():
+        for i, it in enumerate(items):
+            yield special_chunk(it, name, form) if i == len(items) - 1 else G.make_chunk(it, [["count", "int", "int32", "int64"]], form)
+    return gen()
+
+
+ID_REPS = ["int8", "int16", "int32", "int64", "uint8", "uint16", "uint32", "uint64", "float64", "object"]
+CONTAINERS = ["df", "dict", "lists"]
+APIS = ["ordered", "unordered", "frame", "create"]
+
+
+def rep_supported(case):
+    """representations the unchanged library accepts for VALID input (observed, and as documented: tables of numpy columns):
+    chunks of an iterator must hold arrays / Series, not lists; Python-object id columns are only accepted where pandas
+    re-infers them (a whole table given as dict of lists)"""
+    lists_ok = case.get("form") == "frame"
+    if case["chunkform"] == "lists" and not lists_ok:
+        return False
+    if case.get("id_dtype") == "object" and not (case["chunkform"] == "lists" and lists_ok):
+        return False
+    return True
 
 
 # ----------------------------------------------------------------------------- one run
@@ -244,13 +288,19 @@ def impl_run(case, tpl, workdir):
     else:
         kw["ordered"] = False
         kw["mergebuf"] = case.get("mergebuf", 20_000_000)
-    if case.get("form") == "frame":     # a whole table (DataFrame or dict): create_cooler sorts it and hands it to create() as one chunk
+    if case.get("special") and case.get("form") == "frame":
+        pixels = special_chunk(case["items"][0], case["special"], case["chunkform"])
+        kw.pop("ordered", None)
+    elif case.get("special"):
+        pixels = make_special_iter(case["items"], case["special"], case["chunkform"])
+    elif case.get("form") == "frame":     # a whole table (DataFrame or dict): create_cooler sorts it and hands it to create() as one chunk
         import pandas as pd
-        tbl = G.make_chunk(case["items"][0], [["count", "int", "int32", "int64"]], "dict")
+        tbl = G.make_chunk(case["items"][0], [["count", "int", "int32", case.get("count_dtype", "int64")]],
+                           "lists" if case["chunkform"] == "lists" else "dict", case.get("id_dtype", "int64"))
         pixels = pd.DataFrame(tbl) if case["chunkform"] == "df" else tbl
         kw.pop("ordered", None)
     else:
-        pixels = make_iter(case["items"], case["chunkform"])
+        pixels = make_iter(case["items"], case["chunkform"], case.get("id_dtype", "int64"), case.get("count_dtype", "int64"))
     if case.get("api") == "create":     # cooler.create.create with the deprecated append flag: mode = "a" if append else "w"
         from cooler.create import create as _create
         kw.pop("ordered", None)
@@ -349,7 +399,11 @@ def check(ctx, case, out, mv):
         exp = "ErrIter"
     else:
         exp = "ok"
-    ctx.compare("result / error kind", case, out["result"], exp)
+    if case.get("rep_case"):
+        # which exception class an unsupported container raises is not modelled; refused-or-not is
+        ctx.compare("refused or accepted", case, out["result"] == "ok", exp == "ok")
+    else:
+        ctx.compare("result / error kind", case, out["result"], exp)
     ctx.compare("completed", case, out["result"] == "ok", ok_m)
     for p, om in zip(paths, obs_m):
         ex, isc, listed, sh = out["after"][pstr(p)]
@@ -403,6 +457,34 @@ def gen_cases(ctx):
                 cases.append({"scenario": scen, "dest": list(dest), "mode": mode, "in_scope": scope, "symm": True, "ordered": True, "form": "frame",
                               "stream": -1, "fault": ["record", kind, 0, pos, rec] if kind else None, "items": [rows], "chunkform": ["df", "dict"][k % 2]})
             k += 1
+    # every invalid family x every column representation the API is handed: bin ids int8..int64, uint8..uint64, float64 holding
+    # integral values, Python-object ints; counts int64 / uint16 / float64; chunks as DataFrame, dict of arrays, dict of lists;
+    # through create_cooler(ordered=True), create_cooler(ordered=False), a whole table, and cooler.create.create.
+    # The expectation is decided by the VALUE of the record as written (a negative id cannot be written unsigned: skipped).
+    fam = [("tril", [2, 1, [1]]), ("excess", [1, NB, [1]]), ("neg", [-1, 2, [1]]), ("dup", [2, 2, [9]]), (None, None)]
+    k = 0
+    for idt in ID_REPS:
+        for cont in CONTAINERS:
+            for api in APIS:
+                k += 1
+                kinds = fam if thorough else [fam[0], fam[1], fam[2 + k % 3]]
+                for kind, rec in kinds:
+                    if kind == "neg" and idt.startswith("uint"):
+                        continue
+                    fault = ["record", kind, 1, 1 + k % 2, rec] if kind else None
+                    items = apply_fault(BASE_STREAMS[2], tuple(fault) if fault else None)
+                    scen, dest, mode, scope = TARGETS[(1, 0, 4)[k % 3]]
+                    case = {"scenario": scen, "dest": list(dest), "mode": mode, "in_scope": scope, "symm": True, "ordered": api != "unordered",
+                            "rep_case": True, "id_dtype": idt, "count_dtype": ["int64", "uint16", "float64"][k % 3], "chunkform": cont,
+                            "stream": 2, "fault": fault, "items": items}
+                    if api == "frame":
+                        case["form"] = "frame"
+                        case["items"] = [[r for it in items for r in it]]
+                    elif api == "create":
+                        case["api"] = "create"
+                    if kind is None and not rep_supported(case):
+                        continue
+                    cases.append(case)
     # every combination of the check toggles x every kind of invalid record (last chunk of a 2-chunk stream)
     k = 0
     base = BASE_STREAMS[2]
@@ -431,6 +513,32 @@ def gen_cases(ctx):
     return cases
 
 
+def special_cases(ctx):
+    import common
+    names = ["inf_id", "missing_bin2", "missing_count"]
+    # a NaN bin id passes the bounds check of the unchanged code (every comparison with NaN is false) and is stored as INT64_MIN:
+    # reported to the lead; exercised on every run as soon as it is registered in known_findings.json under NAN_SIGNATURE
+    if any(k_.get("property") == "C13" and k_.get("signature") == NAN_SIGNATURE and k_.get("status") == "known" for k_ in common.load_known()):
+        names.append("nan_id")
+    out = []
+    k = 0
+    for name in names:
+        for cont in ("df", "dict"):
+            for api in APIS:
+                k += 1
+                scen, dest, mode, scope = TARGETS[(1, 0, 4)[k % 3]]
+                items = [list(c) for c in BASE_STREAMS[2]]
+                case = {"scenario": scen, "dest": list(dest), "mode": mode, "in_scope": scope, "symm": True, "ordered": api != "unordered",
+                        "special": name, "chunkform": cont, "stream": 2, "fault": ["special", name, 1], "items": items}
+                if api == "frame":
+                    case["form"] = "frame"
+                    case["items"] = [[r for it in items for r in it]]
+                elif api == "create":
+                    case["api"] = "create"
+                out.append(case)
+    return out
+
+
 def run(ctx):
     d = ctx.tmp / "c13"
     d.mkdir(exist_ok=True)
@@ -439,6 +547,13 @@ def run(ctx):
     work = d / "work"
     work.mkdir(exist_ok=True)
     cases = gen_cases(ctx)
+    # inputs without an integer value (NaN / inf ids, a missing column): no model literal exists; the property oracle decides
+    for c in special_cases(ctx):
+        o = impl_run(c, tpl, work)
+        ctx.case(c, nontrivial=True, kind=f"special:{c['special']}")
+        bad = oracle(c, o)
+        if bad:
+            ctx.fail(c, {"violations": [[str(x)[:300] for x in b_] for b_ in bad[:4]]}, NAN_SIGNATURE if c["special"] == "nan_id" else None)
     outs = [impl_run(c, tpl, work) for c in cases]
     exprs = [model_expr(c) for c in cases]
     model = C.coq_eval("From Cooler Require Import Model.Create.", exprs, tmpdir=ctx.tmp / "model", shard=120, jobs=4)
